@@ -292,7 +292,20 @@ class Built:
                 kw['independent_middleware'] = False
         if cfg.get('own_router'):
             kw['router'] = falcon.routing.CompiledRouter()
-        self.app = cls(sink_before_static_route=cfg['sink_first'], **kw)
+        if cfg.get('cors') == 'enable':
+            kw['cors_enable'] = True
+        elif cfg.get('cors') == 'explicit':
+            kw['middleware'] = kw.get('middleware', []) + [falcon.CORSMiddleware()]
+        ctor = cfg.get('ctor') or 'kw'
+        if ctor == 'default':
+            # the option is not passed at all: the documented default (sinks first) applies on both stacks
+            assert cfg['sink_first'] is True
+            self.app = cls(**kw)
+        elif ctor == 'positional':
+            self.app = cls(falcon.DEFAULT_MEDIA_TYPE, None, None, kw.get('middleware'), kw.get('router'),
+                           kw.get('independent_middleware', True), kw.get('cors_enable', False), cfg['sink_first'])
+        else:
+            self.app = cls(sink_before_static_route=cfg['sink_first'], **kw)
         pairs = [make_resource(self.trace, i, spec, self.asgi) for i, spec in enumerate(cfg['resources'])]
         self.resources = [p[0] for p in pairs]
         self.targets = [p[1] for p in pairs]
@@ -351,14 +364,15 @@ class Built:
             self.model.add_static(idx, prefix, d, fallback)
         return op
 
-    def request(self, method, path):
+    def request(self, method, path, headers=()):
         del self.trace[:]
         raw = quote(path, safe="/")
+        headers = [tuple(h) for h in headers]
         if self.asgi:
-            res = A.run_asgi_http(self.app, A.make_scope(method, raw))
+            res = A.run_asgi_http(self.app, A.make_scope(method, raw, headers=headers))
             exc = res.exc if res.outcome == 'raised' else (None if res.outcome == 'done' else res.outcome)
         else:
-            res = W.run_wsgi(self.app, W.make_environ(method, raw))
+            res = W.run_wsgi(self.app, W.make_environ(method, raw, headers=headers))
             exc = res.exc
         return {'trace': [list(t) for t in self.trace], 'status': res.status, 'allow': res.header_values('Allow'),
                 'clen': res.header('Content-Length'), 'body': res.body, 'exc': repr(exc) if exc is not None else None}
@@ -404,6 +418,8 @@ def judge(alt, obs, method, cfg):
     if cls == 'auto-options':
         if st != 200:
             return 'auto-options-status'
+        if alt.get('cors_preflight'):
+            return None         # the CORS middleware moves Allow to Access-Control-Allow-Methods (property C20)
         return None if parse_allow(obs['allow']) == alt['allow'] else 'auto-options-allow'
     if cls == '405':
         if st != 405:
@@ -445,13 +461,39 @@ def _readd_decisive(entries, chosen):
     return False
 
 
-def check_request(rec, b, method, path, checkpoints=(), final=True):
+_TOKEN = re.compile(r"^[!#$%&'*+\-.^_`|~0-9A-Za-z]+$")
+
+
+def cors_preflight(cfg, method, headers):
+    """True / False / None(undecided here).  W3C CORS (the text CORSMiddleware cites), preflight request: an
+    OPTIONS request with an Origin and an Access-Control-Request-Method naming a method.  No such header, or an
+    empty one (no method named), is not a preflight; a non-empty value that is not a method token is left to C20."""
+    if not cfg.get('cors') or method != 'OPTIONS':
+        return False
+    h = {k.lower(): v for k, v in headers}
+    if 'origin' not in h or 'access-control-request-method' not in h:
+        return False
+    acrm = h['access-control-request-method']
+    if acrm == '':
+        return False
+    if acrm != acrm.strip():
+        return None         # a server strips optional whitespace; such a value is not generated
+    return True if _TOKEN.match(acrm) else None
+
+
+def check_request(rec, b, method, path, checkpoints=(), final=True, headers=()):
     exp = b.model.expect(method, path)
     if exp is None:
         rec.count('skip.model-unsure')
         return
+    pre = cors_preflight(b.cfg, method, headers)
+    if pre is None:
+        rec.count('skip.preflight-undecided')
+        return
+    if pre:
+        exp = dict(exp, alts=[dict(a, cors_preflight=True) for a in exp['alts']])
     try:
-        obs = b.request(method, path)
+        obs = b.request(method, path, headers)
     except Exception as ex:  # noqa - driver itself must not fail
         rec.violation('driver-raised', {'cfg': b.cfg, 'nops': b.nops, 'method': method, 'path': path, 'exc': repr(ex)})
         return
@@ -512,6 +554,19 @@ def check_request(rec, b, method, path, checkpoints=(), final=True):
             rec.count('cls.static-404-does-not-fall-through')
     if len(exp['alts']) > 1:
         rec.count('cls.several-routes-match')
+    ctor = b.cfg.get('ctor') or 'kw'
+    if ctor != 'kw' and cls in ('sink', 'static') and {'sink', 'static'} <= set([cls] + alt['over']):
+        rec.count('cls.ctor-%s.%s.%s-wins-over-other-kind' % (ctor, stack, cls))
+    if b.cfg.get('cors') and cls in ('auto-options', '405', 'responder', 'sink'):
+        hn = sorted(k.lower() for k, _v in headers)
+        kind = 'preflight' if pre else ('empty-acrm' if any(k.lower() == 'access-control-request-method' and not v.strip()
+                                                             for k, v in headers) else ('origin' if hn else 'bare'))
+        rec.count('cls.cors.%s.%s' % (kind, cls))
+    if cls in ('responder', 'auto-options', '405') and any(
+            sg[0] == 'multi' for sg in M.parse_template(alt['template'])):
+        rec.count('cls.multi-field-route.' + cls)
+        if exp['masks']:
+            rec.count('cls.multi-field-route.masks-fallback')
     for _i, sp, _d, _f in b.model.statics:
         if sp.endswith('//') and path.startswith(sp.rstrip('/') + '/') and not path.startswith(sp) and \
                 not (cls == 'static' and alt['idx'] == _i):
@@ -556,6 +611,7 @@ def check_request(rec, b, method, path, checkpoints=(), final=True):
     if not ok:
         known = None
         w = {'cfg': b.cfg, 'custom': CUSTOM, 'nops': b.nops, 'checkpoints': list(checkpoints), 'method': method, 'path': path,
+             'headers': [list(h) for h in headers],
              'expected': exp['alts'], 'observed': obs, 'mechanisms': verdicts}
         rec.violation(verdicts[0], w, known_key=known)
     return cls
@@ -631,10 +687,13 @@ def family_orders():
         ['static', 1, '/f/sub', 1, 'index.html', False],
         ['route', '/f/nope.txt', 0, None],
     ]
-    for perm in itertools.permutations(range(5)):
+    for n, perm in enumerate(itertools.permutations(range(5))):
         for sink_first in (True, False):
             for stack in ('wsgi', 'asgi'):
-                yield {'stack': stack, 'sink_first': sink_first,
+                # how the option reaches the constructor: keyword / not at all (documented default: sinks first) /
+                # positionally (8th parameter)
+                ctor = 'kw' if n % 2 else ('default' if sink_first else 'positional')
+                yield {'stack': stack, 'sink_first': sink_first, 'ctor': ctor,
                        'resources': [{'callable': ['on_get', 'on_put']}],
                        'ops': [items[i] for i in perm]}
 
@@ -744,6 +803,59 @@ SLASH_REQUESTS = [('GET', p) for p in (
     [('PUT', '/st0/common.txt'), ('HEAD', '/st0//common.txt'), ('OPTIONS', '/things/7'), ('PUT', '//zz')]
 
 
+def family_multi_field():
+    """A literal segment and a multi-field segment that also matches that literal as siblings, with different
+    continuations (top level and one level down), next to a sink and a static route they must mask."""
+    for stack in ('wsgi', 'asgi'):
+        for sink_first in (True, False):
+            for base in ('', '/api'):
+                for flip in (False, True):
+                    routes = [['route', base + '/v1.0/status', 0, None],
+                              ['route', base + '/v{major}.{minor}/items', 1, 'x'],
+                              ['route', base + '/v{major}.{minor}', 1, None]]
+                    if flip:
+                        routes.reverse()
+                    yield {'stack': stack, 'sink_first': sink_first,
+                           'resources': [{'callable': ['on_get']}, {'callable': ['on_get', 'on_get_x', 'on_put_x']}],
+                           'ops': [['sink', 0, '/', 0, False], ['static', 0, base + '/v1.0', 0, 'index.html', False]] + routes,
+                           '_base': base}
+
+
+def multi_field_requests(base):
+    return [(m, base + p) for p in ('/v1.0/items', '/v2.7/items', '/v1.0/status', '/v2.7/status', '/v1.0/other',
+                                    '/v1.0', '/v2.7', '/vx.y/items', '/v1.0.2/items', '/v1./items', '/w1.0/items')
+            for m in ('GET', 'PUT', 'OPTIONS')]
+
+
+CORS_HEADER_SETS = [
+    (),
+    (('Origin', 'https://a.example'),),
+    (('Origin', 'https://a.example'), ('Access-Control-Request-Method', '')),
+    (('Access-Control-Request-Method', 'GET'),),
+    (('Origin', 'https://a.example'), ('Access-Control-Request-Method', 'GET')),
+    (('Origin', 'https://a.example'), ('Access-Control-Request-Method', 'PUT'), ('Access-Control-Request-Headers', 'X-A')),
+]
+
+
+def family_cors():
+    """Apps with the built-in CORS middleware (cors_enable=True or an explicit CORSMiddleware): all subsets of the
+    5-method universe x stack; requests with no CORS headers, with headers that do not make a preflight (no Origin,
+    no / empty Access-Control-Request-Method) and real preflights (where only status and trace are judged)."""
+    for mask in range(32):
+        S = [m for i, m in enumerate(U5) if mask >> i & 1]
+        for stack in ('wsgi', 'asgi'):
+            for cors in ('enable', 'explicit'):
+                yield {'stack': stack, 'sink_first': bool(mask & 1), 'cors': cors,
+                       'ctor': 'positional' if mask & 2 else 'kw',
+                       'mw': MW_VARIANTS[1] if mask & 4 and cors == 'enable' else None,
+                       'resources': [{'callable': sorted(M.responder_name(m) for m in S)}],
+                       'ops': [['sink', 0, '/', 0, False], ['route', '/r0/{id}', 0, None]]}
+
+
+CORS_REQUESTS = [(m, p, h) for h in CORS_HEADER_SETS for m, p in (('OPTIONS', '/r0/7'), ('PUT', '/r0/7'), ('GET', '/r0/7'),
+                                                                   ('OPTIONS', '/zz'))]
+
+
 def family_arg_types():
     """str arguments passed as str SUBCLASSES whose str()/format() differ from their value ((str, Enum) member,
     LoudStr), directories as pathlib.Path: every op alone and all together x option x stack."""
@@ -810,8 +922,8 @@ def run_config_fixed(rec, root, cfg, requests, every_step):
             return
         final = step == n - 1
         if final or every_step:
-            for method, path in requests:
-                check_request(rec, b, method, path, checkpoints, final)
+            for req in requests:
+                check_request(rec, b, req[0], req[1], checkpoints, final, req[2] if len(req) > 2 else ())
             checkpoints.append(b.nops)
 
 
@@ -819,11 +931,12 @@ def run_config_fixed(rec, root, cfg, requests, every_step):
 # random configurations
 
 FIELD_BY_NS = {0: '{id}', 1: '{id:int}', 2: '{name}'}
-FIELD_VALUES = ['7', '042', 'abc', 'x', 'é', 'common.txt', 'sub', 'Zz-9', '12']
+FIELD_VALUES = ['7', '042', 'abc', 'x', 'é', 'common.txt', 'sub', 'Zz-9', '12', '1', '0']
 
 
 def route_pool():
-    pool = ['/', '/{top}', '/st0/common.txt', '/st1/{file}', '/s0/{id}', '/s1', '/s2/{a}/{b}', '/R0/x', '/r0/X']
+    pool = ['/', '/{top}', '/st0/common.txt', '/st1/{file}', '/s0/{id}', '/s1', '/s2/{a}/{b}', '/R0/x', '/r0/X', '/v1.0/status', '/v{major}.{minor}/items', '/v{major}.{minor}', '/v1.0',
+            '/r2/{a}-{b}', '/r2/x-y/sub']
     for k, f in FIELD_BY_NS.items():
         pool += ['/r%d' % k, '/r%d/%s' % (k, f), '/r%d/x' % k, '/r%d/%s/sub' % (k, f), '/r%d/x/{tail}' % k,
                  '/r%d/' % k]
@@ -943,7 +1056,8 @@ def gen_config(rng):
             hints += [path, path + '/', path + '/extra', path.rsplit('/', 1)[0] or '/']
     hints += ['/', '/zz', '/r0/7', '/s0/12', '/st0/common.txt', '/abc/def.txt', '/r1/abc', '/r1/12', '/r2/x/sub',
               '/R0/x', '/r0/x', '/r0/X', '/St0/common.txt', '/ST0/common.txt', '/S0/12',
-              '//zz', '//r0/7', '//s0/12', '///', '//st0/common.txt', '/r0//7', '/s0//12']
+              '//zz', '//r0/7', '//s0/12', '///', '//st0/common.txt', '/r0//7', '/s0//12',
+              '/v1.0/items', '/v2.7/items', '/v1.0/status', '/v1.0', '/v3.1', '/r2/x-y', '/r2/x-y/sub', '/r2/p-q']
     # a resource gains / loses responders between two add_* calls (only unsuffixed ones are removed, so that a
     # later suffixed route still finds a responder)
     if rng.random() < 0.3:
@@ -978,10 +1092,21 @@ def gen_config(rng):
     if rng.random() < 0.35:
         mw = {'hook': rng.choice(['request', 'resource']), 'status': rng.choice([None, 202, 202, 404, 201]),
               'allow': rng.choice([None, None, 'BOGUS', 'GET, BOGUS', '']), 'dependent': rng.random() < 0.3}
-    return {'stack': rng.choice(['wsgi', 'asgi']), 'sink_first': rng.random() < 0.5,
-            'resources': resources, 'ops': ops, 'mw': mw, 'wrap': wrap, 'sink_objects': rng.random() < 0.25,
-            'own_router': rng.random() < 0.15,
-            'compile_now': rng.random() < 0.25}, sorted(set(hints))
+    cfg = {'stack': rng.choice(['wsgi', 'asgi']), 'sink_first': rng.random() < 0.5,
+           'resources': resources, 'ops': ops, 'mw': mw, 'wrap': wrap, 'sink_objects': rng.random() < 0.25,
+           'cors': rng.choice([None, None, None, None, 'enable', 'explicit']),
+           'ctor': rng.choice(['kw', 'kw', 'positional', 'default']),
+           'own_router': rng.random() < 0.15,
+           'compile_now': rng.random() < 0.25}
+    if cfg['ctor'] == 'default':
+        cfg['sink_first'] = True        # the option is not passed: the documented default applies
+    return cfg, sorted(set(hints))
+
+
+RANDOM_HEADER_SETS = CORS_HEADER_SETS + [
+    (('Origin', 'null'), ('Access-Control-Request-Method', 'G T')),        # not a token: undecided here, skipped
+    (('origin', 'https://b.example'), ('access-control-request-method', 'delete')),
+]
 
 
 def pick_methods(rng, b, path):
@@ -1006,7 +1131,8 @@ def run_random_config(rec, root, rng):
         paths = rng.sample(hints, min(len(hints), 24 if final else 6))
         for path in paths:
             for method in pick_methods(rng, b, path):
-                check_request(rec, b, method, path, checkpoints, final)
+                headers = rng.choice(RANDOM_HEADER_SETS) if cfg.get('cors') and rng.random() < 0.7 else ()
+                check_request(rec, b, method, path, checkpoints, final, headers)
         checkpoints.append(b.nops)
     if final and rng.random() < 0.1:
         # one matched path under every request method there is
@@ -1046,7 +1172,15 @@ def run(rec):
             for _ in range(2):
                 run_config_fixed(rec, root, cfg, BRANCH_REQUESTS, every_step=True)   # every shard: tiny
             rec.count('exh.branch-class-configs')
-        for fam, reqs, counter in ((family_resource_styles, SUBSET_REQUESTS, 'exh.resource-style-configs'),
+        for cfg in family_multi_field():
+            idx += 1
+            if idx % rec.nshards != rec.shard:
+                continue
+            cfg = dict(cfg)
+            run_config_fixed(rec, root, cfg, multi_field_requests(cfg.pop('_base')), every_step=True)
+            rec.count('exh.multi-field-configs')
+        for fam, reqs, counter in ((family_cors, CORS_REQUESTS, 'exh.cors-configs'),
+                                   (family_resource_styles, SUBSET_REQUESTS, 'exh.resource-style-configs'),
                                    (family_slashes, SLASH_REQUESTS, 'exh.slash-configs'),
                                    (family_arg_types, ARG_TYPE_REQUESTS, 'exh.arg-type-configs'),
                                    (family_equal_and_changing_resources, EQUAL_REQUESTS, 'exh.equal-resource-configs')):
@@ -1119,6 +1253,17 @@ def run(rec):
     for cls in ('sink', 'static', '404'):
         rec.floor('cls.preset-status.request.%s' % cls, 40)
     rec.floor('exh.arg-type-configs', 56)
+    rec.floor('exh.multi-field-configs', 16)
+    rec.floor('exh.cors-configs', 128)
+    for c in ('responder', '405', 'auto-options', 'masks-fallback'):
+        rec.floor('cls.multi-field-route.' + c, 40)
+    for stack in ('wsgi', 'asgi'):
+        rec.floor('cls.ctor-default.%s.sink-wins-over-other-kind' % stack, 40)
+        rec.floor('cls.ctor-positional.%s.static-wins-over-other-kind' % stack, 40)
+    for kind in ('bare', 'origin', 'empty-acrm', 'preflight'):
+        rec.floor('cls.cors.%s.auto-options' % kind, 40)
+        if kind != 'preflight':         # a preflight is an OPTIONS request: never a 405 here
+            rec.floor('cls.cors.%s.405' % kind, 40)
     rec.floor('exh.resource-style-configs', 378)
     rec.floor('exh.slash-configs', 8)
     for style in ('proxy', 'nodir', 'callobj'):
@@ -1167,8 +1312,8 @@ def replay(rec, w):
             while b.nops < cp:
                 b.apply_next()
             if cp != wit['nops']:
-                b.request(wit['method'], wit['path'])
-        cls = check_request(rec, b, wit['method'], wit['path'], wit.get('checkpoints', []), True)
+                b.request(wit['method'], wit['path'], wit.get('headers', []))
+        cls = check_request(rec, b, wit['method'], wit['path'], wit.get('checkpoints', []), True, wit.get('headers', []))
         rec.case(('replay', cls))
         rec.case(('replay', 'x'))
         print('replayed: designated outcome class', cls, 'violations', rec.counters.get('violations', 0))
